@@ -245,3 +245,62 @@ def check_reset_completeness(ctx, rid):
     ctx.ob(rid, 'no-unset-state', f'{c.mod.relpath}:{c.node.lineno}', 'every self.<attr> the splitter reads is initialised', not ghost,
            f'read but never stored: {ghost}')
     return sorted(stored)
+
+
+def check_driver_order(ctx, rid):
+    """The split-level protocol has two halves: _change_splitlevel (delta and block flags for one token) and the driver
+    loop of process().  The flags belong to the statement the token is appended to, so on every path of one iteration the
+    classification of the token happens after the `yield`/`_reset()` that closes the previous statement, exactly once,
+    on the unmodified (ttype, value), and its result is what is added to self.level before the token is appended."""
+    f, lp, (tv, vv) = splitter_loop(ctx)
+    paths = enum_paths(lp.body)
+
+    def change_calls(s):
+        return [n for n in ast.walk(s) if isinstance(n, ast.Call) and is_attr(n.func, '_change_splitlevel', 'self')]
+    n = 0
+    for p in paths:
+        st = p.stmts()
+        desc = ' ∧ '.join(f'{"" if pol else "not "}({src(t)})' for t, pol in p.tests()) or 'always'
+        key = f'order[{desc}]'
+        calls = [(i, c) for i, s in enumerate(st) for c in change_calls(s)]
+        # tests evaluated on the path may contain the call as well
+        tcalls = [c for t, _ in p.tests() for c in change_calls(t)]
+        loc = f'{f.mod.relpath}:{lp.lineno}'
+        if p.exit not in ('fall', 'continue'):
+            continue
+        n += 1
+        if len(calls) + len(tcalls) != 1 or tcalls:
+            ctx.ob(rid, key, loc, 'the token is classified by exactly one _change_splitlevel call on the path', False,
+                   f'{len(calls) + len(tcalls)} calls on the path: a token is not classified, or classified twice (flags and depth counted twice)')
+            continue
+        i, c = calls[0]
+        loc = f'{f.mod.relpath}:{c.lineno}'
+        okargs = len(c.args) == 2 and is_name(c.args[0], tv) and is_name(c.args[1], vv) and not c.keywords
+        resets_after = [s for s in st[i + 1:] if is_reset_call(s)]
+        yields_after = [s for s in st[i + 1:] if isinstance(s, ast.Expr) and isinstance(s.value, (ast.Yield, ast.YieldFrom))]
+        apps = [j for j, s in enumerate(st) if is_append_token(ctx, f, s, tv, vv)[0]]
+        # the result reaches self.level
+        s = st[i]
+        flows = isinstance(s, ast.AugAssign) and isinstance(s.op, ast.Add) and is_attr(s.target, 'level', 'self') and s.value is c
+        via = None
+        if not flows and isinstance(s, ast.Assign) and len(s.targets) == 1 and isinstance(s.targets[0], ast.Name):
+            via = s.targets[0].id
+            uses = [u for u in st[i + 1:] if isinstance(u, ast.AugAssign) and isinstance(u.op, ast.Add) and is_attr(u.target, 'level', 'self')
+                    and is_name(u.value, via)]
+            flows = len(uses) == 1 and (s.value is c or (isinstance(s.value, ast.IfExp) and (s.value.body is c or s.value.orelse is c)))
+        before_append = bool(apps) and i < apps[0]
+        ok = okargs and not resets_after and not yields_after and flows and before_append
+        why = []
+        if not okargs:
+            why.append(f'arguments `{src(c)}` are not the loop pair ({tv}, {vv})')
+        if resets_after or yields_after:
+            why.append('the token is classified BEFORE the previous statement is yielded and self._reset() runs: the flags it sets '
+                       '(_is_create, _in_declare, _begin_depth ...) are wiped by the reset, so a CREATE/DECLARE/BEGIN that starts a statement '
+                       'right after a ";" is forgotten and its body is cut at the first inner ";"')
+        if not flows:
+            why.append('the returned delta is not added to self.level exactly once')
+        if not before_append:
+            why.append('the token is appended before it is classified')
+        ctx.ob(rid, key, loc, 'classification follows the reset of the previous statement, once, and its delta is added to self.level before the append', ok,
+               '; '.join(why))
+    ctx.need(n > 0, 'no path through the splitter loop')
